@@ -47,8 +47,12 @@ class Contract:
         self.bitvec = kw.pop("bitvec", None)
         self.merge_ifs = kw.pop("merge_ifs", False)
         self.nl_abstract = kw.pop("nl_abstract", False)
+        self.traced = kw.pop("traced", True)
+        self.local_ensures = list(kw.pop("local_ensures", []))   # proved on the function, NOT assumed at call sites
+                                                                  # (clauses about the unit-local ghost call trace)        # calls to it are recorded in the caller's ghost call trace
         self.replay = kw.pop("replay", None)
         self.external_overrides = kw.pop("externals", {})
+        self.local_types = kw.pop("local_types", {})   # declared element types of local lists created empty
         self.findings = kw.pop("findings", {})      # {finding id: pre-state clause delimiting the known failing region}
         if kw:
             raise TypeError("unknown contract keys %s" % list(kw))
@@ -149,6 +153,13 @@ class Registry:
             if attr in cd.fields:
                 return cd.fields[attr]
         return None
+
+    def field_decl(self, cls, attr):
+        """(declaring class, type) of a field along the declared chain"""
+        for cd in self._chain(cls):
+            if attr in cd.fields:
+                return cd.name, cd.fields[attr]
+        return None, None
 
     def class_file(self, cls):
         for cd in self._chain(cls):
@@ -289,3 +300,90 @@ def hook(cls, kind, attr=None):
         REG.classes[cls].hooks[(kind, attr)] = fn
         return fn
     return deco
+
+
+# ---------------------------------------------------------------- ghost call trace (per verification unit)
+from .engine import call_code as _call_code
+
+
+@specfunc
+def code(E, name):
+    return _call_code(name)
+
+
+@specfunc
+def ct_len(E):
+    return Sym(E.llen(E.ct), "int")
+
+
+@specfunc
+def ct_code(E, k):
+    return E.lget(E.ct, zint(k))[0]
+
+
+@specfunc
+def ct_recv(E, k):
+    return E.lget(E.ct, zint(k))[1]
+
+
+@specfunc
+def ct_arg(E, k):
+    return E.lget(E.ct, zint(k))[2]
+
+
+@specfunc
+def ct_is(E, k, name, recv=None, arg=None):
+    """event k of the call trace is a call of `name` on receiver `recv` (with first argument `arg`)"""
+    ev = E.lget(E.ct, zint(k))
+    conds = [ev[0].t == _call_code(name)]
+    if recv is not None:
+        conds.append(ev[1].t == (recv.t if hasattr(recv, "t") else zint(recv)))
+    if arg is not None:
+        conds.append(ev[2].t == (arg.t if hasattr(arg, "t") else zint(arg)))
+    return Sym(z3.And(*conds), "bool")
+
+
+def opaque_method(name, ret_ty=None, effect=None):
+    """attr hook factory: a method whose body is outside the contract; each call is appended to the ghost call
+    trace as (name, receiver, first argument), applies `effect(E, obj, args, kwargs)` (havoc) and returns a fresh value"""
+    def attr_hook(E, obj):
+        def m(E2, *args, **kwargs):
+            E2.ct_append(name, obj, args[0] if args else None)
+            if effect:
+                effect(E2, obj, args, kwargs)
+            if ret_ty is None or ret_ty.kind == "none":
+                return None
+            v = E2.fresh_val("ret_" + name.replace(".", "_"), ret_ty)
+            E2.ghost.setdefault("rets", []).append((name, v))
+            return v
+        m._specfunc = True
+        return m
+    return attr_hook
+
+
+@specfunc
+def ct_arg_list(E, k, et):
+    """the list object passed as first argument of call-trace event k (its CURRENT contents)"""
+    ev = E.lget(E.ct, zint(k))
+    return ListV(ev[2].t, et)
+
+
+def havoc_all_but(fields_by_class, keep):
+    """modifies entry: the named fields may change on EVERY object except the ones `keep` (spec expressions)
+    evaluates to.  Used for opaque acts / auxiliary framers under the no-re-entrancy assumption."""
+    def m(E):
+        keeps = [E.spec_value(k) for k in keep]
+        for cls, names in fields_by_class.items():
+            for attr in names:
+                decl, ty = E.reg.field_decl(cls, attr)
+                for i, srt in enumerate(sorts(ty)):
+                    key = ("f", decl + "." + attr, i)
+                    old = E.harr(key, [z3.IntSort()], srt)
+                    new = E.fresh("hvf_" + attr, old.sort())
+                    for kv in keeps:
+                        E.assume(z3.Select(new, kv.t) == z3.Select(old, kv.t))
+                    E.heap[key] = new
+                    E.note_write(key, z3.Int("any!ref"))
+    m.frame = lambda E: []
+    m.allbut = (fields_by_class, keep)
+    return m
